@@ -1461,6 +1461,29 @@ def where(cond, a, b):
     return SArr(shape, dtype, lambda idx: elem_ite(cond.get(idx), pick(aa, idx), pick(bb, idx)))
 
 
+def roll(a, shift, axis=None):
+    """numpy.roll along one axis: out[.., i, ..] = a[.., (i - shift) mod n, ..] (n may be symbolic; |shift| <= n is
+    established with the solver, otherwise the call is unsupported)."""
+    if not isinstance(a, SArr):
+        return _np.roll(a, shift, axis=axis)
+    if axis is None or isinstance(axis, (tuple, list)) or isinstance(shift, (tuple, list)):
+        raise Unsupported("numpy.roll without a single axis")
+    ax = axis if axis >= 0 else a.ndim + axis
+    n = _dimt(a.shape[ax])
+    sh = I(shift)
+    r, _m = ctx().prove(z3.And(sh >= -n, sh <= n))
+    if r != "unsat":
+        raise Unsupported("numpy.roll with a shift not provably within [-n, n]")
+    src = a.frozen()
+
+    def get(idx):
+        j = idx[ax] - sh
+        j = z3.If(j < 0, j + n, z3.If(j >= n, j - n, j))
+        return src.get(tuple(idx[:ax]) + (j,) + tuple(idx[ax + 1:]))
+
+    return SArr(a.shape, a.dtype, get)
+
+
 def log2(x):
     if is_sym(x):
         raise Unsupported("log2 of a symbolic value")
@@ -1477,7 +1500,7 @@ def make_shim():
         isnan=isnan, isfinite=isfinite, broadcast_to=broadcast_to, putmask=putmask, nanmean=nanmean, mean=mean,
         all=all_, any=any_, nanmin=nanmin, nanmax=nanmax, empty=empty, zeros=zeros, ones=ones, full=full,
         atleast_2d=atleast_2d, asarray=asarray, copy=copy, maximum=maximum, minimum=minimum, round=round_,
-        around=round_, floor=floor, ceil=ceil, clip=clip, where=where, log2=log2, result_type=result_type,
+        around=round_, floor=floor, ceil=ceil, clip=clip, where=where, log2=log2, roll=roll, result_type=result_type,
         nan=float("nan"), pi=_np.pi, inf=float("inf"), newaxis=None,
         uint8=_np.uint8, int16=_np.int16, int32=_np.int32, int64=_np.int64, float16=_np.float16,
         float32=_np.float32, float64=_np.float64, bool_=_np.bool_, dtype=_np.dtype, ndarray=SArr,
